@@ -1155,6 +1155,36 @@ func (cx *c07Ctx) timing() {
 	} else {
 		cx.res.Dist("timing:entry-gone-after-failover")
 	}
+	// 4. a report by a replica that is NOT in the ISR at that moment opens a window like any other: the entry expires
+	//    after T, so that once the replica is back in the ISR its old report cannot complete a quorum with a fresh one
+	if err := im.create("w2", []string{"b", "c", "d", "e"}, "b"); err != nil {
+		cx.t.Fatal(err)
+	}
+	sn = im.dump("w2")
+	if st := im.request("shrink", "w2", "c", sn.leader, sn.le); st != nil {
+		fail("failover-window", "fixture: shrinking the ISR by c was refused: %s", c07Why(st))
+	}
+	t4 := time.Now()
+	im.request("report", "w2", "c", sn.leader, sn.le)
+	hadEntry := im.dump("w2").hasFo
+	sn = im.dump("w2")
+	if st := im.request("expand", "w2", "c", sn.leader, sn.le); st != nil {
+		fail("failover-window", "fixture: expanding the ISR by c was refused: %s", c07Why(st))
+	}
+	if hadEntry {
+		if _, gone := cx.waitNoEntry("w2", 5*time.Second); !gone {
+			fail("failover-window", "the failover entry opened by a report of a replica outside the ISR did not expire within 5s (timeout %v): %v", T, im.dump("w2").wit)
+		}
+	}
+	if d := T - time.Since(t4); d > 0 {
+		time.Sleep(d + T/5)
+	}
+	sn = im.dump("w2")
+	im.request("report", "w2", "d", sn.leader, sn.le)
+	if after := im.dump("w2"); after.leader != sn.leader {
+		fail("failover-window", "c reported while outside the ISR, was re-added, and %v later (timeout %v) ONE fresh report by d deposed the leader: %s", time.Since(t4).Round(time.Millisecond), T, after)
+	}
+	cx.res.Dist(fmt.Sprintf("timing:report-outside-isr:entry=%v", hadEntry))
 	cx.res.Count("timing", true)
 	im.cleanup()
 }
